@@ -573,7 +573,7 @@ func gen(g *fw.Gen) {
 		return v
 	}
 	// lane level
-	for n := g.ShareOf(60000, 3000000); n > 0; n-- {
+	for n := g.ShareOf(60000, 1500000); n > 0; n-- {
 		var ln int
 		var t uint64
 		switch g.Rng.Intn(8) {
@@ -619,30 +619,30 @@ func gen(g *fw.Gen) {
 		}
 		g.Emit("lane", fw.Pack(fw.U64(g.Rng.Uint64()), fw.U32(uint32(ln-8)), fw.U64(t)))
 	}
-	for n := g.ShareOf(20000, 1000000); n > 0; n-- {
+	for n := g.ShareOf(20000, 500000); n > 0; n-- {
 		g.Emit("toint", fw.Pack(fw.U64(g.Rng.Uint64()), []byte{byte(g.Rng.Intn(5))}))
 	}
-	for n := g.ShareOf(20000, 1000000); n > 0; n-- {
+	for n := g.ShareOf(20000, 500000); n > 0; n-- {
 		if g.Rng.Intn(8) == 0 {
 			g.Emit("score", fw.Pack(g.Bytes(8+g.Rng.Intn(6000))))
 			continue
 		}
 		g.Emit("score", fw.Pack(g.Bytes(8+g.Rng.Intn(300))))
 	}
-	for n := g.ShareOf(64, 3000); n > 0; n-- {
+	for n := g.ShareOf(64, 1500); n > 0; n-- {
 		g.Emit("shared", fw.Pack(fw.U64(g.Rng.Uint64())))
 	}
-	for n := g.ShareOf(200, 10000); n > 0; n-- {
+	for n := g.ShareOf(200, 5000); n > 0; n-- {
 		g.Emit("reuse", fw.Pack(fw.U64(g.Rng.Uint64())))
 	}
 	// long single-worker mines (tens of thousands of nonces, hundreds of blocks)
-	for n := g.ShareOf(480, 24000); n > 0; n-- {
+	for n := g.ShareOf(480, 12000); n > 0; n-- {
 		l := g.Rng.Intn(60)
 		lx := 19683 + g.Rng.Intn(40000)
 		g.Emit("mine", fw.Pack(g.Bytes(l), fw.U64(uint64(lx/(l+8))), []byte{1}))
 	}
 	// API level
-	for n := g.ShareOf(250, 12000); n > 0; n-- {
+	for n := g.ShareOf(250, 6000); n > 0; n-- {
 		l := g.Rng.Intn(120)
 		if g.Rng.Intn(10) == 0 {
 			l = 120 + g.Rng.Intn(1400)
